@@ -512,6 +512,16 @@ M("C10", "evolve-exact-phase-sign", MPS, "        new_mps.coeff *= np.exp(-1j * 
 M("C10", "evolve-exact-mpdm-shift", MPDM, "space=space, shift=-h_mpo.offset", "space=space, shift=h_mpo.offset", ["evolve-exact-siblings"], "MpDm.evolve_exact shifts the propagator the wrong way")
 M("C10", "evolve-exact-phase-on-input", MPS, "        new_mps.coeff *= np.exp(-1j * h_mpo.offset * evolve_dt)", "        self.coeff *= np.exp(-1j * h_mpo.offset * evolve_dt)", ["evolve-exact-siblings"],
   "phase multiplied into the input state instead of the result")
+M("C01", "split-site-order-reversed", OP, "        for site_idx in sorted(grouped_op_info.keys()):", "        for site_idx in sorted(grouped_op_info.keys(), reverse=True):", ["split-order"],
+  "per-site operators come out with the sites descending")
+M("C01", "split-prepend", OP, "            grouped_op_info[site_idx].append(Op(elem_symbol, elem_name, qn=qn))", "            grouped_op_info[site_idx].insert(0, Op(elem_symbol, elem_name, qn=qn))", ["split-order"],
+  "factors on one site are collected in reverse order")
+M("C01", "split-unknown-dof-dropped", OP, "            if site_idx is None:\n                raise ValueError(f\"Unknown DoF name {elem_name} in {self}.\")", "            if site_idx is None:\n                continue", ["split-order", "unknown"],
+  "a factor on an unknown degree of freedom is dropped silently")
+M("C10", "from-mps-off-diagonal", MPDM, "                mo[:, iaxis, iaxis, :] = ms[:, iaxis, :].array", "                mo[:, iaxis, -1 - iaxis, :] = ms[:, iaxis, :].array", ["purification", "from_mps"],
+  "purification puts the state on the anti-diagonal of (physical, ancilla)")
+M("C10", "from-mps-shared-config", MPDM, "        mpo.compress_config = mps.compress_config.copy()\n        return mpo", "        mpo.compress_config = mps.compress_config\n        return mpo", ["purification", "from_mps"],
+  "purified state shares its compression configuration with the source state")
 M("C06", "canonicalise-switch-always", "renormalizer/mps/mp.py", "        if (not self.to_right and idx == 1) or (self.to_right and idx == self.site_num - 2):\n            self._switch_direction()", "        self._switch_direction()", ["sweep-centre"],
   "direction switched after partial sweeps too")
 M("C02", "graph-cover-le", "renormalizer/mps/symbolic_mpo.py", "    if non_red.shape[0] < non_red.shape[1]:\n        for i in range(non_red.shape[0]):", "    if non_red.shape[0] <= non_red.shape[1]:\n        for i in range(non_red.shape[0]):", ["terminal-cover"],
